@@ -10,6 +10,7 @@ round-trip hypothesis (`ExternalCodec`), exercised against the real libraries by
 import LinVerif.Generated.C14
 import LinVerif.Lemmas.C14Varint
 import LinVerif.Lemmas.C14TsdBytes
+import LinVerif.Lemmas.C14BitOps
 import LinVerif.Lemmas.C14FixedOffset
 import LinVerif.Lemmas.C14Delta
 import LinVerif.Lemmas.C14Facts
@@ -47,73 +48,6 @@ theorem uvariant_size_is_length (x : Nat) : uvariantSize x = (putUvarint x).leng
 
 /-! ## 2. bit stream refinement -/
 
-/-- one call on the bit writer / the matching call on the bit reader -/
-inductive BitOp
-  | bit (b : Bool)
-  | bits (u n : Nat)
-  | byte (b : Nat)
-
-/-- the call is within the domain lindb uses: at most 64 bits, a byte below 256 -/
-def BitOp.Valid : BitOp → Prop
-  | .bit _ => True
-  | .bits _ n => n ≤ 64
-  | .byte b => b < 256
-
-/-- the bits the call contributes to the abstract stream -/
-def BitOp.abs : BitOp → List Bool
-  | .bit b => [b]
-  | .bits u n => natBits n u
-  | .byte b => natBits 8 b
-
-/-- the value the matching read returns -/
-def BitOp.value : BitOp → Nat
-  | .bit b => b.toNat
-  | .bits u n => u % 2 ^ n
-  | .byte b => b
-
-def runWriter (w : Writer) : List BitOp → Writer
-  | [] => w
-  | .bit b :: ops => runWriter (w.writeBit b) ops
-  | .bits u n :: ops => runWriter (w.writeBits u n) ops
-  | .byte b :: ops => runWriter (w.writeByte b) ops
-
-/-- read with the same shapes; `none` as soon as a read reports an error -/
-def runReader (r : Reader) : List BitOp → Option (List Nat)
-  | [] => some []
-  | .bit _ :: ops =>
-    let (b, e, r1) := r.readBit
-    if e then none else (runReader r1 ops).map (b.toNat :: ·)
-  | .bits _ n :: ops =>
-    match r.readBits n with
-    | (none, _) => none
-    | (some v, r1) => (runReader r1 ops).map (v :: ·)
-  | .byte _ :: ops =>
-    let (b, e, r1) := r.readByte
-    if e then none else (runReader r1 ops).map (b :: ·)
-
-theorem runWriter_spec : ∀ (ops : List BitOp) (w : Writer), w.Ok → (∀ o ∈ ops, o.Valid) →
-    (runWriter w ops).Ok ∧ (runWriter w ops).bits = w.bits ++ ops.flatMap BitOp.abs := by
-  intro ops
-  induction ops with
-  | nil => intro w h _; simp [runWriter, h]
-  | cons o ops ih =>
-    intro w h hv
-    have hrest : ∀ o ∈ ops, o.Valid := fun o ho => hv o (by simp [ho])
-    have ho := hv o (by simp)
-    cases o with
-    | bit b =>
-      have h1 := w.writeBit_spec h b
-      obtain ⟨i1, i2⟩ := ih _ h1.1 hrest
-      exact ⟨i1, by rw [runWriter, i2, h1.2]; simp [BitOp.abs]⟩
-    | bits u n =>
-      have h1 := w.writeBits_spec h u n ho
-      obtain ⟨i1, i2⟩ := ih _ h1.1 hrest
-      exact ⟨i1, by rw [runWriter, i2, h1.2]; simp [BitOp.abs]⟩
-    | byte b =>
-      have h1 := w.writeByte_spec h b ho
-      obtain ⟨i1, i2⟩ := ih _ h1.1 hrest
-      exact ⟨i1, by rw [runWriter, i2, h1.2]; simp [BitOp.abs]⟩
-
 /-- **Writer refinement.** Whatever sequence of `WriteBit` / `WriteBits` / `WriteByte` calls is made
 on a fresh (or `Reset`) writer, the bytes after `Flush` are, bit for bit, the concatenation of
 what the calls denote, followed by fewer than 8 zero bits. -/
@@ -124,30 +58,6 @@ theorem bitwriter_refines_stream (ops : List BitOp) (hv : ∀ o ∈ ops, o.Valid
   obtain ⟨ok, hb⟩ := runWriter_spec ops Writer.fresh Writer.fresh_ok hv
   refine ⟨_, Writer.pad_lt _ ok, ?_, Writer.flush_out_lt _ ok⟩
   rw [Writer.flush_bits _ ok, hb]; simp
-
-theorem runReader_spec : ∀ (ops : List BitOp) (r : Reader) (t : List Bool), r.Ok → (∀ o ∈ ops, o.Valid) →
-    r.rest = ops.flatMap BitOp.abs ++ t → runReader r ops = some (ops.map BitOp.value) := by
-  intro ops
-  induction ops with
-  | nil => intros; rfl
-  | cons o ops ih =>
-    intro r t h hv hr
-    have hrest : ∀ o ∈ ops, o.Valid := fun o ho => hv o (by simp [ho])
-    have ho := hv o (by simp)
-    cases o with
-    | bit b =>
-      have hr' : r.rest = b :: (ops.flatMap BitOp.abs ++ t) := by simpa [BitOp.abs] using hr
-      obtain ⟨r1, hrd, ok1, hrest1, _⟩ := r.readBit_spec h b _ hr'
-      simp [runReader, hrd, ih r1 t ok1 hrest hrest1, BitOp.value]
-    | bits u n =>
-      have hr' : r.rest = natBits n u ++ (ops.flatMap BitOp.abs ++ t) := by simpa [BitOp.abs] using hr
-      obtain ⟨r1, hrd, ok1, hrest1, _⟩ := r.readBits_spec h n _ _ ho (by simp) hr'
-      simp [runReader, hrd, ih r1 t ok1 hrest hrest1, BitOp.value, bitsVal_natBits]
-    | byte b =>
-      have hr' : r.rest = natBits 8 b ++ (ops.flatMap BitOp.abs ++ t) := by simpa [BitOp.abs] using hr
-      obtain ⟨r1, hrd, ok1, hrest1, _⟩ := r.readByte_spec h _ _ (by simp) hr'
-      have hb : b % 2 ^ 8 = b := Nat.mod_eq_of_lt (by simpa [BitOp.Valid] using ho)
-      simp [runReader, hrd, ih r1 t ok1 hrest hrest1, BitOp.value, bitsVal_natBits, hb]
 
 /-- **Reader refinement / bit-level round trip.** Reading the flushed bytes back with calls of
 the same shapes (`ReadBit` / `ReadBits(n)` / `ReadByte`, including the shifted-byte fast path of
@@ -177,6 +87,24 @@ theorem xor_roundtrip (vs : List Nat) (hvs : ∀ v ∈ vs, v < 2 ^ 64) :
     (Reader.ok_of_aligned _ 0 (Writer.flush_out_lt _ ok)) hvs' ?_
   rw [Reader.fresh, Reader.rest_of_aligned]; simpa using hfl
 
+/-- Observation (compression, not losslessness): the encoder's window starts at `leading = trailing = 0`
+and the test `leading >= e.leading && trailing >= e.trailing` is then always true, so the branch
+that announces a new window (6 + 6 bits) is never taken: every changed value costs 2 + 64 bits.
+`Enc.step` is the encoder-state component of `Write` (`Xor.Enc.write_spec`). -/
+theorem xor_window_never_opens (e : Xor.Enc) (v : Nat) (h : e.leading = 0 ∧ e.trailing = 0) :
+    (e.step v).leading = 0 ∧ (e.step v).trailing = 0 := by
+  obtain ⟨h1, h2⟩ := h
+  unfold Xor.Enc.step
+  split
+  · exact ⟨h1, h2⟩
+  · dsimp only
+    split
+    · exact ⟨h1, h2⟩
+    · have hc : Xor.clz64 (v ^^^ e.prev) ≥ e.leading ∧ Xor.ctz64 (v ^^^ e.prev) ≥ e.trailing := by
+        rw [h1, h2]; exact ⟨Nat.zero_le _, Nat.zero_le _⟩
+      rw [if_pos hc]
+      exact ⟨h1, h2⟩
+
 /-- the same through reused objects: `Reset()` of a used encoder / decoder is the fresh state -/
 theorem xor_reset_eq_fresh (e : Xor.Enc) (d : Xor.Dec) : e.reset = Xor.Enc.fresh ∧ d.reset = Xor.Dec.fresh :=
   ⟨rfl, rfl⟩
@@ -190,9 +118,6 @@ def tsdEncode (start : Nat) (slots : Slots) : Option (List Nat) := ((Enc.fresh s
 
 /-- `BytesWithoutTime()` -/
 def tsdEncodeNoTime (start : Nat) (slots : Slots) : List Nat := ((Enc.fresh start).appendAll slots).bytesWithoutTime.1
-
-theorem slotsOk_of (slots : Slots) (h : ∀ v, some v ∈ slots → v < 2 ^ 64) : slotsOk slots :=
-  fun v hv => by simpa [two64] using h v hv
 
 /-- **tsd_roundtrip.** Any start slot, any presence mask, any values: the block produced by
 `Bytes()` decodes, through `Reset` on ANY decoder object `d0` (fresh, used or pooled), to the
@@ -384,21 +309,6 @@ theorem tsd_decoder_reset_range_eq_fresh (d : Dec) (data : List Nat) (s e : Nat)
     simp [Dec.resetWithTimeRange, Dec.reset', Dec.zero, hi, Reader.fresh, Reader.setBuf,
       Reader.reset, Xor.Dec.fresh, Xor.Dec.reset]
 
-/-- a reuse history of one pooled TSD encoder -/
-inductive EncOp
-  | get (start : Nat)       -- GetTSDEncoder(start) returning this object / RestWithStartTime(start)
-  | slot (s : Option Nat)   -- AppendTime (+ AppendValue)
-  | bytes                   -- Bytes()
-
-def runEnc : Enc → List EncOp → Enc × List (Option (List Nat))
-  | e, [] => (e, [])
-  | e, .get s :: ops => runEnc (e.resetWithStartTime s) ops
-  | e, .slot s :: ops => runEnc (e.appendSlot s) ops
-  | e, .bytes :: ops =>
-    let (b, e1) := e.bytes
-    let (e2, bs) := runEnc e1 ops
-    (e2, b :: bs)
-
 /-- **History independence.** What a pooled encoder produces after it was (re)acquired does not
 depend on anything that happened to the object before. -/
 theorem tsd_encoder_history_irrelevant (e1 e2 : Enc) (s : Nat) (ops : List EncOp) :
@@ -540,6 +450,34 @@ theorem delta_empty_guard :
 
 end Delta
 
+/-! ## non-vacuity: the hypotheses are satisfiable by non-trivial inputs -/
+
+/-- a NaN with payload, an empty slot, -0.0, a subnormal: block starting at slot 65000 -/
+example : ∃ bytes, tsdEncode 65000 [some 0x7FF8000000000123, none, some 0x8000000000000000, some 1] = some bytes ∧
+    ∀ fuel, 4 < fuel → ((Dec.zero.reset bytes).readSeq fuel).1
+      = [(65000, 0x7FF8000000000123), (65002, 0x8000000000000000), (65003, 1)] := by
+  obtain ⟨bytes, h1, _, _, h4⟩ := tsd_roundtrip 65000 [some 0x7FF8000000000123, none, some 0x8000000000000000, some 1]
+    Dec.zero (by intro v hv; simp at hv; omega) (by simp) (by decide)
+  exact ⟨bytes, h1, fun fuel hf => by simpa [expected] using h4 fuel (by simpa using hf)⟩
+
+example : (Xor.Dec.nextN 3 Xor.Dec.fresh
+    (Reader.fresh (Xor.Enc.fresh.writeAll Writer.fresh [0x7FF0000000000001, 0, 0xFFFFFFFFFFFFFFFF]).2.flush.out)).1
+      = [(true, 0x7FF0000000000001), (true, 0), (true, 0xFFFFFFFFFFFFFFFF)] :=
+  xor_roundtrip [0x7FF0000000000001, 0, 0xFFFFFFFFFFFFFFFF] (by intro v hv; simp at hv; omega)
+
+example : ∃ d, FixedOffset.Dec.fresh.unmarshal ((FixedOffset.encOf true [0, 70000, 4294967295]).marshal ++ [9, 9])
+    = (.ok [9, 9], d) ∧ d.get 2 = some 4294967295 := by
+  obtain ⟨d, h1, _, h3, _⟩ := fixedoffset_roundtrip true [0, 70000, 4294967295] [9, 9] FixedOffset.Dec.fresh
+    (by simp) (by intro v hv; simp at hv; omega) (by decide)
+  exact ⟨d, h1, by simpa using h3 2 (by decide)⟩
+
+/-- deltas that overflow int32: MinInt32, MaxInt32, MinInt32 -/
+example : ∃ d', DeltaPack.Dec.nextN 3 ((DeltaPack.Dec.fresh []).reset
+      ((DeltaPack.Enc.fresh.addAll [-2147483648, 2147483647, -2147483648]).bytes).1)
+    = ([-2147483648, 2147483647, -2147483648], d') ∧ d'.hasNext = false :=
+  (delta_roundtrip DeltaPack.Enc.fresh (DeltaPack.Dec.fresh []) (-2147483648) [2147483647, -2147483648]
+    DeltaPack.Enc.fresh_clean (by omega) (by intro v hv; simp at hv; omega) (by decide)).2
+
 /-! ## 8. external codecs -/
 
 /-- roaring bitmap (`MarshalBinary` / `FromBuffer`) and snappy (`Writer` / `Reader`): external
@@ -560,11 +498,6 @@ example : ExternalCodec (List Nat) := { encode := id, decode := some, roundtrip 
 
 theorem firstValueLen_tie : Xor.firstValueLen = Generated.C14.firstValueLen := rfl
 theorem blockSizeAdjustment_tie : Xor.blockSizeAdjustment = Generated.C14.blockSizeAdjustment := rfl
-
-/-- first row of a threshold table whose bound exceeds `v` -/
-def tableWidth : List (Nat × Nat) → Nat → Nat → Nat
-  | [], d, _ => d
-  | (t, w) :: rest, d, v => if v < t then w else tableWidth rest d v
 
 theorem uint32MinWidth_tie (v : Nat) :
     FixedOffset.uint32MinWidth v = tableWidth Generated.C14.uint32MinWidthTable Generated.C14.uint32MinWidthDefault v := by
